@@ -434,6 +434,9 @@ class SeriesOps:
                     and isinstance(ix, Ser) and ix.name == "__index__" and ix.frame is not None and ix.ctx == dt[3][1]:
                 from .pandas_ops import _strip_row
                 return Ser(_strip_row(dt[2]), ix.ctx, ix.frame)
+            # pd.Series(<scalar>, index=df.index): the constant column over df's rows
+            if isinstance(ix, Ser) and ix.name == "__index__" and ix.frame is not None and (isinstance(data, (int, float, str, bool)) or (isinstance(data, tuple) and data and data[0] in ("const", "enum", "param"))):
+                return Ser(dt, ix.ctx, ix.frame)
             st = ("series", dt)
             return Ser(st, (("series", self.I.new_id()), T.TRUE, None), None)
         if name == "pd.to_numeric":
